@@ -168,6 +168,7 @@ class World:
     def __init__(self, eng, N):
         self.eng, self.N = eng, N
         self.calcver = 0
+        self.imgver = 0
         self.bright = [eng.float("bright%d" % i) for i in range(N)]
 
 
@@ -235,7 +236,8 @@ def build():
 
         def __getitem__(self, feat):
             if feat == "emodulus":
-                return SArr([Tok(("emodulus", self.world.calcver), i)
+                return SArr([Tok(("emodulus", self.world.calcver,
+                                  self.world.imgver), i)
                              for i in range(self.world.N)], float)
             if feat in self._events:
                 return self._events[feat]
@@ -376,6 +378,12 @@ class Run:
             self.w.calcver += 1
             self.root.config["calculation"]["emodulus temperature"] = \
                 23.0 + self.w.calcver
+        elif kind == "CI":
+            # a root setting OUTSIDE [calculation] that computed features
+            # depend on (pixel size, frame rate, flow rate, ...)
+            self.w.imgver += 1
+            self.root.config["imaging"]["frame rate"] = \
+                2000.0 + self.w.imgver
         elif kind == "F":
             self.levels[-1].rejuvenate()
             self.check(k)
@@ -435,7 +443,8 @@ class Run:
                               tag + "temporary feature follows the root "
                               "events", info={"level": L})
                 elif feat == "emodulus":
-                    eng.prove(got == [Tok(("emodulus", self.w.calcver), rid)
+                    eng.prove(got == [Tok(("emodulus", self.w.calcver,
+                                           self.w.imgver), rid)
                                       for rid in view],
                               tag + "computed feature reflects the current "
                               "root configuration", info={"level": L})
@@ -530,6 +539,8 @@ def cases(tier, seed):
         ("d3 X3 R X3 R", H(N, 3, X(3), F, R, F, X(3), F, R, F)),
         ("d3 X2 B1 X3 BX1", H(N, 3, X(2), F, B(1), F, X(3), F, BX(1), F)),
         ("d3 B2 T3 R", H(N, 3, B(2), F, T(3), F, R, F)),
+        ("d2 CI C CI", H(N, 2, R, F, "CI", F, C, F, "CI", F)),
+        ("d1 CI", H(N, 1, B(0), F, "CI", F)),
     ]
     if tier == "thorough":
         out += [
@@ -704,6 +715,10 @@ def concrete(p, vals):
             temp = [np.nan] * N
             for rid, x in zip(view, d):
                 temp[rid] = x
+        elif kind == "CI":
+            # emodulus depends on the pixel size (pixelation correction)
+            root.config["imaging"]["pixel size"] = \
+                root.config["imaging"]["pixel size"] + 0.05
         elif kind == "C":
             calcver += 1
             root.config["calculation"]["emodulus temperature"] = \
